@@ -220,12 +220,13 @@ def probe_source(i):
 
 
 def gen_e2e_args(rng, src, wild=0.05):
-    """Argument vector for an entry whose source file exists; printable ASCII only."""
+    """Argument vector for an entry whose source file exists; printable ASCII only.
+    Macro bodies name no probed macro (the probes show expansions)."""
     args = [rng.choice(COMPILERS[:2])]
     for _ in range(rng.randint(0, 7)):
         k = rng.random()
         if k < 0.34:
-            m = rng.choice(MACROS) + rng.choice(VALUES) if rng.random() > wild else rng.choice([b"S=\"a b\"", b"Q=$x", b"R=a;b", b"T=a\\b", b"W=a b", b"T=a$b"])
+            m = rng.choice(MACROS) + rng.choice(VALUES) if rng.random() > wild else rng.choice([b"S=\"p q\"", b"Q=$x", b"R=a;b", b"T=p\\q", b"W=p q", b"T=p$q"])
             args += [b"-D" + m] if rng.random() < 0.7 else [b"-D", m]
         elif k < 0.48:
             m = rng.choice(MACROS[:4])
